@@ -87,6 +87,14 @@ pub fn gen_case(r: &mut Rng) -> DetCase {
         rows.push(buy("BRK B", last_day + 4, "", 3, 11));
         rows.push(buy("BRK-B", last_day + 5, "", 4, 12));
     }
+    // a ticker that cannot be a file name as it stands (path separator), next to the name its file
+    // gets: neither may stop, or share a file with, another security (F-08b)
+    if r.chance(30) {
+        rows.push(buy("BRK/B", last_day + 6, "", 2, 13));
+        if r.chance(50) {
+            rows.push(buy("BRK%2FB", last_day + 7, "", 2, 14));
+        }
+    }
     rows.sort_by_key(|x| x.settle_jd);
     let cut = first_day + ((last_day - first_day) as i64 * r.range(30, 110) / 100) as i32;
     DetCase { csv: csv_text(&rows), summary_date: date_str(date_from_jd(cut)) }
